@@ -203,11 +203,13 @@ STR_FORMS = [("dq_escaped", _php_dq_escaped), ("dq_raw", _php_dq_raw), ("sq_raw"
 
 
 def string_programs(rng, quick):
-    strs = stress_strings(rng, 12 if quick else 400)
+    strs = stress_strings(rng, 12 if quick else 60)
     if quick:
         # all atoms and lf+atom, a seeded tenth of the pairs, the long one; the whole list goes through the
         # emitter round trip below in both tiers (cheap), the programs carry the subset
         strs = [x for x in strs if "+lf+" not in x[0] or rng.random() < 0.1]
+    else:
+        strs = [x for x in strs if "+lf+" not in x[0] or rng.random() < 0.4]     # every pair goes through the emitter round trip (strlit); the programs carry 40 %
     progs = []
     for form, lit in STR_FORMS:
         lines = ["<?php", "function p_%s($i, $s) { echo $i, ':', strlen($s), ':', bin2hex($s), \"\\n\"; }" % form, "$iv = 'I';"]
@@ -223,7 +225,7 @@ def string_programs(rng, quick):
         # default parameter values, class constants, match arms
         progs.append(("strlit_" + form, "\n".join(lines) + "\n"))
     pos = ["<?php"]
-    for k, (sid, b) in enumerate(strs[: (30 if quick else 400)]):
+    for k, (sid, b) in enumerate(strs[: (30 if quick else 120)]):
         l = _php_dq_escaped(b)
         pos.append("function d%d($p = %s) { return $p; } class K%d { const C = %s; public $q = %s; }\n"
                    "$a = [%s => %s]; foreach ($a as $ak => $av) { echo '%s:', bin2hex((string)$ak), ':', bin2hex($av), ':', bin2hex(d%d()), ':', bin2hex(K%d::C), ':', bin2hex((new K%d())->q), \"\\n\"; }"
@@ -576,12 +578,18 @@ def main(ck):
             progs[p] = {"kind": "feature", "features": [name], "src": src}
         sprogs, _ = string_programs(rng, quick)
         stress = stress_strings(rng, 100)
-        for name, src in sprogs + include_programs() + gen_programs(rng, 16 if quick else 150):
+        # the translation of a file depends on what the same `origami compile` run parsed before it: an unqualified
+        # class name inside a namespace resolves to a same-named GLOBAL class when one is already loaded
+        # (isolated from tests/php/rti_debug.php + spl_iterator_family_test.php).  a_ sorts before b_.
+        ctx_pair = [("batchctx_a_global_class", "<?php\nclass CtxDup { function who() { return 'global'; } }\necho (new CtxDup())->who(), \"\\n\";\n"),
+                    ("batchctx_b_namespaced_class", "<?php\nnamespace CtxNs;\nclass CtxDup { function who() { return 'namespaced'; } function again() { return new CtxDup(); } }\n"
+                                                    "echo (new CtxDup())->who(), (new CtxDup())->again()->who(), \"\\n\";\n")]
+        for name, src in sprogs + include_programs() + ctx_pair + gen_programs(rng, 16 if quick else 60):
             p = os.path.join(gen_dir, "x_%s.php" % name)
             write_src(p, src)
             progs[p] = {"kind": "feature", "features": [name], "src": src}
         combinable = [f for f in FEATURES if f[0] not in ("uncaught_throw", "undefined_function", "exit_code", "namespace_fn", "shutdown_function")
-                      and not any(k.startswith("e2e:feature=%s" % f[0]) or k.startswith("struct:") and f[0] in k for k in ck.known)]
+                      and not any(k.startswith("e2e:feature=%s" % f[0]) or k.startswith("reject:feature=%s" % f[0]) or k.startswith("struct:") and f[0] in k for k in ck.known)]
         for c in range(8 if quick else 60):
             chosen = rng.sample(combinable, min(len(combinable), rng.randint(3, 6)))
             src = "<?php\n" + "\n".join(code.replace("{S}", "_c%d" % c) for _, code in chosen) + "\n"
@@ -637,7 +645,9 @@ def main(ck):
         # unexported field in a node type, say - shows up here instead of shrinking the corpus silently)
         meta = progs.get(f, {})
         name = (meta.get("features") or [os.path.relpath(f, repo) if f.startswith(repo) else os.path.basename(f)])[0]
-        kind = "corpus" if f.startswith(repo) else "feature"
+        kind = "corpus" if f.startswith(repo) else ("combo" if meta.get("kind") == "combo" else "feature")
+        if kind == "combo":
+            name = "+".join(sorted(meta.get("features") or []))
         first = [l.strip() for l in msg.split("\n") if l.strip()]
         why = re.sub(r"0x[0-9a-f]+", "0x", " | ".join(first[1:3]) if len(first) > 1 else (first[0] if first else ""))[:160]
         ck.violation("reject:%s=%s" % (kind, name), {"case": {"kind": "reject", "file": os.path.relpath(f, repo) if f.startswith(repo) else None,
@@ -957,7 +967,10 @@ def main(ck):
     real = [f for f in gen_files if progs[f]["kind"] == "feature"]
     real = [f for f in real if progs[f]["features"][0] in ("class_const", "try_catch", "uncaught_throw", "exit_code", "namespace_fn", "closure_value", "shutdown_function")]
     if not quick:
-        real = [f for f in gen_files if progs[f]["kind"] == "feature"]
+        # one real project per feature block + a seeded dozen of the generated families (a project costs ~4 s)
+        real = [f for f in gen_files if os.path.basename(f).startswith("f")]
+        others = [f for f in gen_files if os.path.basename(f).startswith("x_")]
+        real += rng.sample(others, min(12, len(others)))
     if replay is not None:
         real = gen_files[:1]
 
